@@ -559,3 +559,140 @@ b('C15', 'div_ceil_std', 'src/core/runner_settings/utils.rs', """    let x = num
     x + if remainder > 0 { 1 } else { 0 }""", """    let x = number / divider;
     let remainder = number - x * divider;
     if remainder > 0 { x + 1 } else { x }""")
+
+# ------------------------------------------------------------------------------------------ more benign refactors (robustness)
+b('C01', 'task_loop_as_extend', 'src/core/map_fil_col.rs', """                for (i, value) in chunk.values.map(map).filter(filter).enumerate() {
+                    collected.push((chunk.begin_idx + i, value));
+                }""", """                let begin = chunk.begin_idx;
+                collected.extend(
+                    chunk
+                        .values
+                        .map(map)
+                        .filter(filter)
+                        .enumerate()
+                        .map(|(i, value)| (begin + i, value)),
+                );""")
+b('C01', 'merge_increment_via_idx', 'src/core/map_fil_col.rs', """        let idx = indices[v];
+        indices[v] += 1;
+
+        curr_v = match vectors[v].get(indices[v]) {
+            Some(x) => Some(queue.push_then_pop(v, x.0).0),
+            None => queue.pop_node(),
+        };
+
+        let ptr = vectors[v].as_mut_ptr();
+        output.push(unsafe { ptr.add(idx).read().1 });
+    }
+
+    for vec in vectors.iter_mut() {
+        unsafe { vec.set_len(0) };
+    }
+}
+
+pub(crate) fn heap_sort_into_pinned_vec""", """        let idx = indices[v];
+        indices[v] = idx + 1;
+
+        curr_v = match vectors[v].get(indices[v]) {
+            Some(x) => Some(queue.push_then_pop(v, x.0).0),
+            None => queue.pop_node(),
+        };
+
+        let ptr = vectors[v].as_mut_ptr();
+        output.push(unsafe { ptr.add(idx).read().1 });
+    }
+
+    for vec in vectors.iter_mut() {
+        unsafe { vec.set_len(0) };
+    }
+}
+
+pub(crate) fn heap_sort_into_pinned_vec""")
+b('C03', 'red_loop_match', 'src/core/map_fil_red.rs', """            while let Some(chunk) = iter.next_chunk_x(c) {
+                let x = chunk.map(map).filter(filter).reduce(reduce);
+                acc = maybe_reduce(reduce, acc, x);
+            }
+            acc""", """            loop {
+                match iter.next_chunk_x(c) {
+                    Some(chunk) => {
+                        let x = chunk.map(map).filter(filter).reduce(reduce);
+                        acc = maybe_reduce(reduce, acc, x);
+                    }
+                    None => break,
+                }
+            }
+            acc""")
+b('C03', 'maybe_reduce_if_let', 'src/core/utils.rs', """    match (a, b) {
+        (None, None) => None,
+        (None, Some(b)) => Some(b),
+        (Some(a), None) => Some(a),
+        (Some(a), Some(b)) => Some(reduce(a, b)),
+    }""", """    match a {
+        None => b,
+        Some(a) => match b {
+            None => Some(a),
+            Some(b) => Some(reduce(a, b)),
+        },
+    }""")
+b('C04', 'count_let_binding', 'src/core/map_fil_cnt.rs', """                count += chunk.map(&map).filter(&filter).count();""", """                let n = chunk.map(&map).filter(&filter).count();
+                count = count + n;""")
+b('C08', 'increment_before_spawn', 'src/core/runner.rs', """                        true => {
+                            s.spawn(move || thread_task(chunk));
+                            num_spawned += 1;
+                        }""", """                        true => {
+                            num_spawned += 1;
+                            s.spawn(move || thread_task(chunk));
+                        }""")
+b('C08', 'do_spawn_if_else', 'src/core/runner.rs', """        match num_spawned {
+            x if x >= self.max_num_threads - 1 => false,
+            _ => !matches!(has_more, HasMore::No),
+        }
+    }
+
+    pub fn next_chunk_size""", """        if num_spawned + 1 >= self.max_num_threads {
+            return false;
+        }
+        match has_more {
+            HasMore::No => false,
+            _ => true,
+        }
+    }
+
+    pub fn next_chunk_size""")
+b('C10', 'find_if_let', 'src/core/map_fil_find.rs', """                if result.is_some() {
+                    iter.skip_to_end();
+                    return result;
+                }""", """                if let Some(found) = result {
+                    iter.skip_to_end();
+                    return Some(found);
+                }""")
+b('C11', 'task_chunk_renamed_copy', 'src/core/flatmap_fil_cnt.rs', """        c => {
+            let mut count = 0;
+            while let Some(chunk) = iter.next_chunk_x(c) {""", """        _ => {
+            let size = chunk_size;
+            let mut count = 0;
+            while let Some(chunk) = iter.next_chunk_x(size) {""")
+b('C12', 'setter_struct_literal', 'src/par/par_map.rs', """    fn num_threads(mut self, num_threads: impl Into<crate::NumThreads>) -> Self {
+        self.params = self.params.with_num_threads(num_threads);
+        self
+    }""", """    fn num_threads(self, num_threads: impl Into<crate::NumThreads>) -> Self {
+        let params = self.params.with_num_threads(num_threads);
+        Self { params, ..self }
+    }""")
+b('C12', 'transformation_uses_destruct_let', 'src/par/par_empty.rs', """        ParMap::new(self.iter, self.params, map)""", """        let Self { iter, params } = self;
+        ParMap::new(iter, params, map)""")
+b('C13', 'set_len_for_index_loop', 'src/core/map_fil_col.rs', """    for vec in vectors.iter_mut() {
+        unsafe { vec.set_len(0) };
+    }
+}
+
+pub fn par_map_fil_col_vec""", """    vectors.iter_mut().for_each(|vec| unsafe { vec.set_len(0) });
+}
+
+pub fn par_map_fil_col_vec""")
+b('C15', 'clamp_with_if', 'src/core/runner.rs', """        let max_num_threads = num_threads::calc_num_threads(input_len, params.num_threads).max(1);""", """        let max_num_threads = match num_threads::calc_num_threads(input_len, params.num_threads) {
+            0 => 1,
+            n => n,
+        };""")
+b('C16', 'transformation_extra_let', 'src/par/par_map.rs', """        ParMapFilter::new(self.iter, self.params, self.map, filter)""", """        let (params, iter, map) = self.destruct();
+        let next = ParMapFilter::new(iter, params, map, filter);
+        next""")
